@@ -21,7 +21,11 @@ MANIFEST = {
             "of the fixture) alone, with == != eq ne, reversed, bare and quoted, and as first / middle / last element of "
             "implicit lists (2244 strings), and quoted literals that contain the other quote character (primed atom names "
             "\"O5'\", \"H5''\", 'H5\"', with unprimed decoys O5 C3 H5 in the fixture) alone, with == != eq ne in both orders, in "
-            "implicit lists, as =~ patterns (252 strings). Depth 2: every tree leaf | not leaf | leaf conn leaf over 21 representative leaves "
+            "implicit lists, as =~ patterns (252 strings); and 21 regular expressions that match only a proper prefix of some "
+            "fixture value (name =~ 'C', 'C[1-4]' with C1..C4 and C10..C12 present, resname =~ 'H' with HOH/HIS, 'A.', ...) in "
+            "every alias and quoting (96 strings) and under not/and/or in every connective spelling (300 trees, 600 strings), "
+            "judged only by select(e) == eval(select_expression(e)) with the real re module and by the emitted source being "
+            "the same text on a second call, not by the reference. Depth 2: every tree leaf | not leaf | leaf conn leaf over 21 representative leaves "
             "x {and,&&,or,||} x {not,!}, rendered flat / minimally / fully parenthesised / every leaf parenthesised (1827 trees, "
             "~3.6k strings); the operator-like literals (1296 trees) and the quote-containing literals (520 trees) under every connective. Depth 3, quick: the three-leaf "
             "slice over 3 leaves in all 16 connective spellings (864 trees); thorough: every tree of depth <= 3 over 4 leaves "
@@ -32,7 +36,7 @@ MANIFEST = {
             "the traversal order is not the index order: add_atom to the first / a middle residue, insert_atom(index=2) into "
             "a water} applied to ONE Topology object x 28 expressions touching every keyword, evaluated before the edits "
             "(fills caches), after every edit, and at the end also through eval(select_expression) and on a from-scratch, "
-            "index-preserving copy of the edited topology (~12.6k cases). Topology: 58 atoms, protein chains/segments, "
+            "index-preserving copy of the edited topology (~12.6k cases). Topology: 70 atoms, protein chains/segments, nucleotide- and lipid-like residues, "
             "water, ions, repeated names and residue numbers. Oracles: select(e) == reference and strictly increasing; all "
             "spelling/parenthesisation variants of one abstract expression agree; eval(select_expression(e)) == select(e); "
             "malformed strings raise; edited object == reference on the re-walked atom table (index = atom.index) == "
@@ -42,7 +46,8 @@ MANIFEST = {
     "note": "Trusted base: the hand-written atom table and reference parser (self-checked: direct tree evaluation == "
             "reference parse of every meaning-preserving rendering). Only type-consistent conditions are generated (string "
             "keywords with ==/!=/=~, numeric keywords with numbers; thresholds >= 0.4 Da away from every atomic mass; regex "
-            "patterns on which match/fullmatch agree). `not` is applied only to leaves and parenthesised expressions. Depth "
+            "patterns on which match/fullmatch agree; patterns that match a proper prefix only are never compared with the "
+            "reference, because the documentation does not say whether =~ anchors at the end). `not` is applied only to leaves and parenthesised expressions. Depth "
             ">= 2 uses representative leaves, not every alias. Strings on which the documentation is silent (bool keyword "
             "compared with a literal, missing whitespace, `not(x)`, negative numbers, True/None) are executed and recorded, "
             "not judged. segment_id/segname are not in the documentation table but are included with the obvious meaning. "
@@ -184,6 +189,28 @@ def _eval_programs(batch):
         if mode == "malformed":
             if tree is not None:
                 raise AssertionError("reference accepts the 'malformed' string %r" % s)
+            out.append(rec)
+            continue
+        if mode == "source-only":
+            # prefix-matching regular expressions: the reference is deliberately NOT consulted (rec["ref"] removed);
+            # judged: select(e) == eval(select_expression(e)) with the real re module, and the emitted source is the
+            # same text on a second, independent call
+            if tree is None:
+                raise AssertionError("reference cannot read generated program %r: %s" % (s, rec["ref_err"]))
+            rec.pop("ref", None)
+            rec["nontrivial"] = sel[0] == "ok" and 0 < len(sel[1]) < n_atoms
+            a = _run_source(s)
+            b = _run_source(s)
+            rp = {"kind": "source", "expr": s}
+            if a[0] == "ok" and b[0] == "ok" and a[2] != b[2]:
+                rec["viol"].append(("source-determinism|prefix-regex", "select_expression(%r) returned %r, then %r" % (s, a[2], b[2]), rp))
+            if sel[0] == "ok" and a[0] == "ok":
+                if sel[1] != a[1]:
+                    rec["viol"].append(("source-eval|prefix-regex|differs",
+                                        "select(%r) = %s but eval(%r) with the re module = %s" % (s, list(sel[1]), a[2], list(a[1])), rp))
+            elif sel[0] != a[0] or sel[1] != a[1]:
+                rec["viol"].append(("source-eval|prefix-regex|%s" % ("raised:" + a[1] if a[0] != "ok" else "select-raised:" + sel[1]),
+                                    "select(%r) -> %s but eval(select_expression) -> %s" % (s, sel[:2], a[:2]), rp))
             out.append(rec)
             continue
         if mode == "recorded" or tree is None:
@@ -491,6 +518,25 @@ def _space(ctx, R, G):
     stats["depth3_flat_renderings_reassociated"] = sum(1 for _s, _k, pres in p3 if not pres)
 
     n0 = len(items)
+    for s in G.prefix_regex_depth1():
+        add(s, "source-only")
+    stats["prefix_regex_depth1_strings"] = len(items) - n0
+    tpx = G.prefix_regex_trees(ctx.seed)
+    n1 = len(items)
+    for s, _k, _pres in G.programs(tpx, ("min", "leafparen")):
+        add(s, "source-only")
+    stats["prefix_regex_trees"] = len(tpx)
+    stats["prefix_regex_depth2_strings"] = len(items) - n1
+    amb = 0
+    for c, pats in G.PREFIX_REGEX.items():
+        vals = set(a[c] for a in _ATOMS if a[c] is not None)
+        for rx in pats:
+            if not any(re.match(rx, v) is not None and re.fullmatch(rx, v) is None for v in vals):
+                raise AssertionError("prefix pattern %r matches no proper prefix of a %s value" % (rx, c))
+            amb += 1
+    stats["prefix_regex_patterns"] = amb
+
+    n0 = len(items)
     for base in G.NESTING:
         for n in range(1, 6):
             add("(" * n + base + ")" * n, "program", ("nest", base))
@@ -549,6 +595,13 @@ def run(ctx):
                 ctx.violation("malformed|accepted|%s" % c,
                               "select(%r) returned %s instead of raising" % (s, list(sel[1]) if sel[0] == "ok" else sel),
                               {"kind": "malformed", "expr": s})
+            continue
+        if mode == "source-only":
+            ctx.report(rec["viol"])
+            if rec["nontrivial"]:
+                nontrivial.add(s)
+            if sel[0] != "ok":
+                recorded[s] = "%s" % (sel[1],)
             continue
         if mode == "recorded" or "ref" not in rec:
             recorded[s] = ("selects %d atoms" % len(sel[1])) if sel[0] == "ok" else "%s" % (sel[1],)
